@@ -21,7 +21,7 @@ DB.FindIDsByTextSearch (set, BM25 scores within 1e-9, order) and VSearch / VSear
 A sample of the judged searches goes back to TLC (Trace_TextIdx.tla), which evaluates the TLA+
 order predicates themselves and must reach the harness's verdicts.
 """
-import json, os, random, re, shutil, subprocess, sys, time
+import json, os, random, shutil, sys, time
 from concurrent.futures import ThreadPoolExecutor
 sys.path.insert(0, os.path.dirname(os.path.abspath(__file__)))
 import vlib
@@ -53,12 +53,14 @@ ALL_BAGS = [c for c in range(1, 3 ** NT) if blen(c) <= 4]
 
 
 def menu(rng, n, with_empty=False):
-    """n bags that share terms (document frequencies > 1 are reachable) and differ in length."""
+    """n bags that share terms (document frequencies > 1 are reachable), differ in length and repeat a term."""
+    k = n - (1 if with_empty else 0)
     for _ in range(1000):
-        m = rng.sample(ALL_BAGS, n - (1 if with_empty else 0))
+        m = rng.sample(ALL_BAGS, k)
         terms = [set(i for i, tf in enumerate(tfs_of(c)) if tf) for c in m]
-        shared = any(terms[i] & terms[j] for i in range(len(m)) for j in range(i + 1, len(m)))
-        if shared and len({blen(c) for c in m}) >= 2 and any(2 in tfs_of(c) for c in m):
+        shared = k < 2 or any(terms[i] & terms[j] for i in range(k) for j in range(i + 1, k))
+        varied = k < 2 or len({blen(c) for c in m}) >= 2
+        if shared and varied and any(2 in tfs_of(c) for c in m):
             return sorted(m + ([0] if with_empty else []))
     raise Infra("no bag menu found")
 
@@ -67,32 +69,19 @@ def lit(s):
     return "{" + ", ".join(str(x) for x in sorted(s)) + "}"
 
 
-# ---------------------------------------------------------------------------- harness build (honours VERIF_REPO)
+# ---------------------------------------------------------------------------- harness build
 
 def build_vtext():
-    if os.path.realpath(vlib.REPO) == "/repo":
-        return vlib.build_harness(cmd="vtext")
-    # a scratch copy of the repository (e.g. one carrying a proposed fix): same harness sources, another replace target
-    d = vlib.scratch("vtext-build-")
-    mod = open(os.path.join(vlib.HARNESS, "go.mod")).read()
-    mod = re.sub(r"replace github.com/sanonone/kektordb => \S+", "replace github.com/sanonone/kektordb => " + os.path.realpath(vlib.REPO), mod)
-    with open(os.path.join(d, "alt.mod"), "w") as f:
-        f.write(mod)
-    shutil.copy(os.path.join(vlib.REPO, "go.sum"), os.path.join(d, "alt.sum"))
-    out = os.path.join(d, "vtext")
-    p = subprocess.run(["go", "build", "-tags", "verif", "-modfile", os.path.join(d, "alt.mod"), "-o", out, "./cmd/vtext"],
-                       cwd=vlib.HARNESS, env=vlib.goenv(), capture_output=True, text=True)
-    if p.returncode != 0:
-        raise Infra("harness build against %s failed:\n%s%s" % (vlib.REPO, p.stdout, p.stderr))
-    return out
+    """harness/cmd/vtext against the current working tree of /repo (or $VERIF_REPO: vlib builds through -modfile then)."""
+    return vlib.build_harness(cmd="vtext")
 
 
 # ---------------------------------------------------------------------------- TLC runs
 
-def tlc_corpus(chk, name, consts, simulate=None, depth=None, timeout=900, workers=None, invs=INVS):
+def tlc_corpus(chk, name, consts, simulate=None, depth=None, timeout=900, workers=None, invs=INVS, walk_seed=None):
     cfg = make_cfg("SpecCorpus", consts, invs, [])
     r = run_tlc("MC_TextIdx", name + ".cfg", cfg_text=cfg, workers=(1 if simulate else workers), timeout=timeout,
-                simulate=simulate, depth=depth, seed_=vlib.seed() if simulate else None)
+                simulate=simulate, depth=depth, seed_=(walk_seed or vlib.seed()) if simulate else None)
     if simulate:
         chk.cov["tlc_runs"].append({"config": name, "mode": "simulate", "walks": simulate, "depth": depth, "corpus_records": len(r.corpus),
                                     "wall_s": round(r.wall, 1), "ok": r.error is None, "invariants": invs})
@@ -168,6 +157,7 @@ def judge(chk, divs, behs, prof, consts, label):
     by_id = {b["id"]: b for b in behs}
     divs = sorted(divs, key=lambda d: (d.get("step", 0), len(by_id[d["id"]]["steps"]) if d["id"] in by_id else 99, d["id"]))
     seen = set()
+    unknown = 0
     for div in divs:
         beh = by_id.get(div["id"])
         kf = vlib.match_known(PROP, div, beh)
@@ -176,6 +166,7 @@ def judge(chk, divs, behs, prof, consts, label):
             if known_hits[kf["id"]] == 1:
                 chk.known.append((kf["id"], kf["what"]))
             continue
+        unknown += 1
         dev = (div.get("diff") or [""])[0].split(" ")[0]
         key = (div["kind"], dev)
         if key in seen and len(chk.violations) >= 3:
@@ -186,6 +177,7 @@ def judge(chk, divs, behs, prof, consts, label):
             cut = dict(beh, steps=beh["steps"][: div.get("step", 0) + 1]) if beh else None
             chk.violation(describe(div, beh), {"property": PROP, "checker": "vtext", "profile": prof, "behaviour": cut,
                                                "divergence": div, "run": label, "constants": {k: str(v) for k, v in consts.items()}})
+    return unknown
 
 
 # ---------------------------------------------------------------------------- trace validation of the order predicates
@@ -226,16 +218,19 @@ def run(tier):
     seed = vlib.seed()
     rng = random.Random(seed)
     totals, traces, families = {}, [], []
-    pool = ThreadPoolExecutor(max_workers=4)
+    pool = ThreadPoolExecutor(max_workers=4 if quick else 5)
 
     pos, qv = GEOMS[seed % 3]
     pos2, qv2 = GEOMS[(seed + 1) % 3]
     langs = ["english", "italian"] if seed % 2 else ["italian", "english"]
 
     # ---- 1. state cover (design level): invariants over every reachable state of the bound, histories of any length
-    cover_consts = dict(BASE, Bags=lit(menu(rng, 3 if quick else 4, with_empty=True)), AddVals="<- c_AddBoth", MaxOps=99,
-                        MaxCtr=3 if quick else 5, MaxLog=2 if quick else 3, DocSeq="<- c_Docs2" if quick else "<- c_Docs3")
-    cover_fut = pool.submit(tlc_cover, chk, "MC_TextIdx_cover", cover_consts, 600 if quick else 3000)
+    cover_consts = dict(BASE, Bags=lit(menu(rng, 3, with_empty=True)), AddVals="<- c_AddBoth", MaxOps=99, MaxCtr=3, MaxLog=2, DocSeq="<- c_Docs2")
+    if quick:
+        cover_futs = [pool.submit(tlc_cover, chk, "MC_TextIdx_cover", cover_consts, 600)]
+    else:
+        cover_futs = [pool.submit(tlc_cover, chk, "MC_TextIdx_cover_3docs", dict(cover_consts, DocSeq="<- c_Docs3", Bags=lit(menu(rng, 2, with_empty=True))), 3000),
+                      pool.submit(tlc_cover, chk, "MC_TextIdx_cover_2docs", dict(cover_consts, MaxCtr=4), 3000)]
 
     # ---- 2. every history of the bound, replayed
     plans = []
@@ -249,24 +244,27 @@ def run(tier):
     else:
         plans.append(("hist4", dict(BASE, Bags=lit(menu(rng, 3)), MaxOps=4, Pos=pos, QVecs=qv), None,
                       dict(lang=langs[0], add_via="VAdd", decor=False, light=True)))
-        plans.append(("hist5_2docs", dict(BASE, DocSeq="<- c_Docs2", Bags=lit(menu(rng, 2)), MaxOps=5, Pos=pos2, QVecs=qv2), None,
+        plans.append(("hist5_2docs", dict(BASE, DocSeq="<- c_Docs2", Bags=lit(menu(rng, 2)), MaxOps=5, Maint="<- c_MaintRestart", Pos=pos2, QVecs=qv2), None,
                       dict(lang=langs[1], add_via="VAddBatch", decor=True, light=True)))
-        plans.append(("hist6_1doc", dict(BASE, DocSeq="<- c_Docs1", Bags=lit(menu(rng, 2)), MaxOps=6, Pos=pos, QVecs=qv), None,
+        plans.append(("hist6_1doc", dict(BASE, DocSeq="<- c_Docs1", Bags=lit(menu(rng, 2)), MaxOps=6, Maint="<- c_MaintRestart", Pos=pos, QVecs=qv), None,
                       dict(lang=langs[1], add_via="VAdd", decor=True, light=True)))
+        plans.append(("hist5_1doc", dict(BASE, DocSeq="<- c_Docs1", Bags=lit(menu(rng, 2, with_empty=True)), AddVals="<- c_AddBoth", MaxOps=5, Pos=pos2, QVecs=qv2), None,
+                      dict(lang=langs[0], add_via="VAddBatch", decor=False, light=True)))
         for i in range(4):
             g = GEOMS[(seed + i) % 3]
             plans.append(("walks%d" % i, dict(BASE, Bags=lit(menu(rng, 4 + i % 2, with_empty=i % 2 == 0)), AddVals="<- c_AddBoth", MaxOps=14,
-                                              Pos=g[0], QVecs=g[1]), (1500, 14),
+                                              Pos=g[0], QVecs=g[1]), (1000, 14),
                           dict(lang=langs[i % 2], add_via=["VAdd", "VAddBatch"][i // 2 % 2], decor=i % 2 == 1, light=False, m=16)))
 
     def gen(plan):
         name, consts, sim, pr = plan
+        wseed = 1000 * seed + plans.index(plan) + 1
         r = tlc_corpus(chk, "MC_TextIdx_" + name, consts, simulate=sim[0] if sim else None, depth=sim[1] if sim else None,
-                       timeout=900 if quick else 3000, workers=max(2, vlib.NCPU // 2))
+                       timeout=900 if quick else 3000, workers=max(2, vlib.NCPU // 2), walk_seed=wseed)
         if r.violated:
             # design-level counterexample: to be decided on the real code -- emit the corpus of the same bound without the invariants
             r2 = tlc_corpus(chk, "MC_TextIdx_" + name + "_noinv", consts, simulate=sim[0] if sim else None, depth=sim[1] if sim else None,
-                            timeout=900 if quick else 3000, workers=max(2, vlib.NCPU // 2), invs=[])
+                            timeout=900 if quick else 3000, workers=max(2, vlib.NCPU // 2), invs=[], walk_seed=wseed)
             return plan, r, r2
         return plan, r, r
     futs = [pool.submit(gen, p) for p in plans]
@@ -280,10 +278,9 @@ def run(tier):
         behs, nrec = vlib.behaviours_from_corpus(rc.corpus)
         prof = profile(geom, pr["lang"], seed, pr["add_via"], pr["decor"], pr["light"], pr.get("m", 8), traces=30 if quick else 60)
         divs = replay(chk, name, behs, prof, totals, traces)
-        before = len(chk.violations)
-        judge(chk, divs, behs, prof, consts, name)
+        unknown = judge(chk, divs, behs, prof, consts, name)
         if r.violated:
-            if len(chk.violations) == before and not divs:
+            if not unknown:
                 chk.infra.append("TLC: %s violated by the transcription in %s but the real engine conforms on every history of that bound "
                                  "(transcription or specification error):\n%s" % (r.violated, name, "\n".join(r.trace[-2:])[:2500]))
         families.append({"config": name, "mode": "random walks (%d x depth %d)" % sim if sim else "every history of <= %d operations" % consts["MaxOps"],
@@ -294,10 +291,11 @@ def run(tier):
             chk.cov["samples"] = [{"history": [s["op"] for s in ex["steps"]], "expected_after_last_step": ex["steps"][-1]["exp"]}]
         trace_consts = trace_consts or consts
 
-    rcov = cover_fut.result()
-    if rcov.violated:
-        chk.infra.append("TLC: %s violated in the state-cover run (design-level counterexample; no history of the replayed bounds reproduces it "
-                         "on the real engine unless reported above):\n%s" % (rcov.violated, "\n".join(rcov.trace[-3:])[:3000]))
+    for cf in cover_futs:
+        rcov = cf.result()
+        if rcov.violated:
+            chk.infra.append("TLC: %s violated in the state-cover run (design-level counterexample; no history of the replayed bounds reproduces it "
+                             "on the real engine unless reported above):\n%s" % (rcov.violated, "\n".join(rcov.trace[-3:])[:3000]))
     pool.shutdown()
 
     # ---- 3. the recorded searches, judged by TLC
@@ -322,7 +320,8 @@ def run(tier):
         + ". After EVERY step of every history: FindIDsByTextSearch for all 15 non-empty subsets of the 4 terms (result set = Candidates, each score = "
           "BM25 from the specification's integers within 1e-9 relative, non-increasing order); VSearch/VSearchGraph with explicit text query and with the "
           "CONTAINS(content,'..') filter form, alpha in {0, 1/2, 1} and text-only (nil / all-zero vector), k in {|docs|+2, 1, 2}, with and without the "
-          "allow-list filter g<2, query vector rotating over 3 lattice vectors. State-cover run: invariants over every reachable (corpus, index, snapshot, log) "
+          "allow-list filter g<2, query vector rotating over 3 lattice vectors (exhaustive families: a rotating third of the 15 queries per step for the fusion "
+          "battery; random walks: all 15). State-cover run: invariants over every reachable (corpus, index, snapshot, log) "
           "state with internal id counter <= MaxCtr and journal <= MaxLog, histories of any length.")
     chk.assumptions += [
         "the real-valued formulas are evaluated OUTSIDE TLA+ (TLC has no reals): the specification decides the integers the formula is evaluated on "
